@@ -105,7 +105,11 @@ Definition orders_of (src : list fn_listing) : orders :=
   mk_orders (order_at src 0 0) (order_at src 0 1) (order_at src 2 0) (order_at src 2 1)
             (order_at src 3 0) (order_at src 3 1) (order_at src 5 0).
 
-(* what the happens-before theorem needs: acquire on the serving load / the exchange, release on both unlock stores *)
+(* EXACTLY what the happens-before proofs need -- the SC/vector-clock ones (SpinProofs.v: inv_hb, sinv_hb) and the
+   stale-read ones (SpinWeakProofs.v: TW2, SW2): acquire on the load of serving_ticket_ in lock(), release on the store
+   in ticket unlock(), acquire on the exchange, release on the store in simple unlock().  Nothing is required of the
+   fetch_add, of unlock()'s load, of the inner-loop load or of is_locked().  Each of the four is necessary: weakening
+   any one to relaxed yields a racy run (Properties_C12.v, Example C12_acq_rel_weak_needs_orders). *)
 Definition sufficient (o : orders) : bool :=
   is_acq (o_t_spin o) && is_rel (o_t_unl_store o) && is_acq (o_s_xchg o) && is_rel (o_s_unl_store o).
 
